@@ -298,6 +298,20 @@ def check(run):
                         texts[n2] = layout(ft if n2 == bname else t2, rng, ('lines' if (fault == 'unterminated-comment' and n2 == bname and style in ('comments', 'mixed')) else style))
                     shape = pick_shape(rng)
                     cases.append(dict(block=bname, path='/nta/' + adjust(bpath, shape), kind=kind, fault=fault, pos=pos, texts=texts, style=style, xml=render(texts, shape), tokens=ft))
+    # a fault at the very end of the last label of each template and of the last block before the templates: a range that ends where the block ends sits on the
+    # boundary between two entries of the position index
+    for bname in ('t1assign2', 't2sync', 't2guard', 'gdecl', 't1inv'):
+        for fault in ('type-error', 'undeclared', 'side-effect', 'dropped-operand'):
+            blocks = base_blocks(rng)
+            bl = next(b for b in blocks if b[0] == bname)
+            toks = bl[3]
+            for pos in range(len(toks) - 1, max(len(toks) - 4, -1), -1):
+                ft = inject(toks, bl[2], fault, pos, rng)
+                if ft is None:
+                    continue
+                texts = {n2: ' '.join(ft if n2 == bname else t2) for (n2, p2, k2, t2) in blocks}
+                cases.append(dict(block=bname, path='/nta/' + bl[1], kind=bl[2], fault=fault, pos=pos, texts=texts, style='plain', xml=render(texts), tokens=ft))
+                break
     # every name of the process list, behind each kind of separator, replaced by an undeclared one
     for sysl in SYSTEM_LISTS:
         blocks = base_blocks(rng, sysl)
